@@ -3,3 +3,4 @@ pub mod probe;
 pub mod build;
 pub mod exec;
 pub mod hooks;
+pub mod vsched;
